@@ -17,7 +17,8 @@ TIE = "Tie.C18"
 DRIVER = "c18_driver.py"
 THEOREMS = ["C18_fromFunction_correct", "C18_signature_string_renders", "C18_fromMethod_strips_self",
             "C18_generated_signature_string_eq_model", "C18_generated_tagged_eq_model",
-            "C18_generated_abc_method_eq_model"]
+            "C18_generated_abc_method_eq_model", "C18_description_faithful",
+            "C18_description_ignores_kwonly_and_locals"]
 SHARD = 120
 GEN_FILE = os.path.join(C.COQ, "Gen", "FromFunction.v")
 SOURCE = os.path.join(C.REPO, "src", "zope", "interface", "interface.py")
